@@ -275,8 +275,17 @@ type bareW struct{ buf []byte }
 
 func (w *bareW) Write(p []byte) (int, error) { w.buf = append(w.buf, p...); return len(p), nil }
 
-func newC03env() (*c03env, error) {
+func newC03env(configureDefault bool) (*c03env, error) {
 	e := &c03env{log: mon.NewLog(), lvlS: map[string]bool{}}
+	if configureDefault {
+		// the application has given the builtin default logger destinations of its own: that is the configuration of
+		// ONE logger; loggers that were never given writers keep using the package's default devices
+		decoy := mon.New(e.log, "WRITER-OF-THE-BUILTIN-DEFAULT-LOGGER", mon.ShapePlain)
+		slog.Default().AddWriter(decoy)
+		slog.Default().AddErrorWriter(decoy)
+		slog.Default().AddLevelWriter(slog.InfoLevel, decoy)
+		slog.Default().AddLevelWriter(slog.ErrorLevel, decoy)
+	}
 	shapes := []mon.Shape{mon.ShapePlain, mon.ShapeCloser, mon.ShapeLvlPlain, mon.ShapeLvlCloser, mon.ShapePlain}
 	for i, s := range shapes {
 		id := fmt.Sprintf("W%d", i)
@@ -425,26 +434,42 @@ type c03form struct {
 	sev   slog.Level
 	blank bool
 	emit  func(lg *slog.Entry, id string)
+	inner *slog.Level // the severity of the record that one of the probe's values issues while the probe is being formatted
 }
+
+// c03nest is a value whose String() issues a record of another severity through the same logger (a lazy value with
+// an instrumented String()): that record is complete - selected, announced, written - before the outer one goes out.
+type c03nest struct {
+	lg  *slog.Entry
+	sev slog.Level
+	id  string
+}
+
+func (n c03nest) String() string { n.lg.LogAttrs(bg, n.sev, "inner-"+n.id); return "nest" }
 
 var c03forms = func() []c03form {
 	var fs []c03form
 	for _, sev := range probeSevs {
 		sev := sev
-		fs = append(fs, c03form{"LogAttrs", sev, false, func(lg *slog.Entry, id string) { lg.LogAttrs(bg, sev, id) }})
+		fs = append(fs, c03form{"LogAttrs", sev, false, func(lg *slog.Entry, id string) { lg.LogAttrs(bg, sev, id) }, nil})
 	}
 	// the same severities through the verbs, and the blank-line forms of Print/Println (one newline byte, Always severity)
 	fs = append(fs,
-		c03form{"Info", slog.InfoLevel, false, func(lg *slog.Entry, id string) { lg.Info(id, "k", 1) }},
-		c03form{"Errorf", slog.ErrorLevel, false, func(lg *slog.Entry, id string) { _ = lg.Errorf("%s", id) }},
-		c03form{"WarnContext", slog.WarnLevel, false, func(lg *slog.Entry, id string) { lg.WarnContext(bg, id) }},
-		c03form{"Println(id)", slog.AlwaysLevel, false, func(lg *slog.Entry, id string) { lg.Println(id) }},
-		c03form{"Print(id)", slog.AlwaysLevel, false, func(lg *slog.Entry, id string) { lg.Print(id) }},
-		c03form{"Println()", slog.AlwaysLevel, true, func(lg *slog.Entry, id string) { lg.Println() }},
-		c03form{"Print(\"\")", slog.AlwaysLevel, true, func(lg *slog.Entry, id string) { lg.Print("") }},
-		c03form{"Print(\" \\n\")", slog.AlwaysLevel, true, func(lg *slog.Entry, id string) { lg.Print(" \n") }},
-		c03form{"PrintContext(\"\\n\")", slog.AlwaysLevel, true, func(lg *slog.Entry, id string) { lg.PrintContext(bg, "\n") }},
+		c03form{"Info", slog.InfoLevel, false, func(lg *slog.Entry, id string) { lg.Info(id, "k", 1) }, nil},
+		c03form{"Errorf", slog.ErrorLevel, false, func(lg *slog.Entry, id string) { _ = lg.Errorf("%s", id) }, nil},
+		c03form{"WarnContext", slog.WarnLevel, false, func(lg *slog.Entry, id string) { lg.WarnContext(bg, id) }, nil},
+		c03form{"Println(id)", slog.AlwaysLevel, false, func(lg *slog.Entry, id string) { lg.Println(id) }, nil},
+		c03form{"Print(id)", slog.AlwaysLevel, false, func(lg *slog.Entry, id string) { lg.Print(id) }, nil},
+		c03form{"Println()", slog.AlwaysLevel, true, func(lg *slog.Entry, id string) { lg.Println() }, nil},
+		c03form{"Print(\"\")", slog.AlwaysLevel, true, func(lg *slog.Entry, id string) { lg.Print("") }, nil},
+		c03form{"Print(\" \\n\")", slog.AlwaysLevel, true, func(lg *slog.Entry, id string) { lg.Print(" \n") }, nil},
+		c03form{name: "PrintContext(\"\\n\")", sev: slog.AlwaysLevel, blank: true, emit: func(lg *slog.Entry, id string) { lg.PrintContext(bg, "\n") }},
 	)
+	for _, p := range [][2]slog.Level{{slog.InfoLevel, slog.DebugLevel}, {slog.ErrorLevel, slog.WarnLevel}, {slog.InfoLevel, slog.ErrorLevel}, {slog.WarnLevel, slog.InfoLevel}, {slog.AlwaysLevel, slog.TraceLevel}} {
+		outer, inner := p[0], p[1]
+		fs = append(fs, c03form{name: fmt.Sprintf("LogAttrs(%v, a value whose String() logs at %v)", outer, inner), sev: outer, inner: &inner,
+			emit: func(lg *slog.Entry, id string) { lg.LogAttrs(bg, outer, id, "v", c03nest{lg, inner, id}) }})
+	}
 	return fs
 }()
 
@@ -576,6 +601,12 @@ func (e *c03env) probeAll(lg *slog.Entry, model *wmodel, rp func(k string, n int
 		for _, x := range d.ids {
 			want[x]++
 		}
+		if pf.inner != nil {
+			for _, x := range model.dest(*pf.inner).ids {
+				want[x]++
+			}
+			rp("probes_whose_value_issues_a_record_of_another_severity", 1)
+		}
 		ids := map[string]bool{}
 		for k := range got {
 			ids[k] = true
@@ -611,6 +642,10 @@ func (e *c03env) probeAll(lg *slog.Entry, model *wmodel, rp func(k string, n int
 				}
 				if e.lvlS[ev.W] {
 					rp("levelsettable_writes", 1)
+					sev := sev
+					if pf.inner != nil && bytes.Contains(ev.Data, []byte("inner-"+id)) {
+						sev = *pf.inner
+					}
 					if ls := lastSet[ev.W]; ls == nil {
 						out = append(out, c03viol{"setlevel", fmt.Sprintf("severity %v (%s): LevelSettable destination %s was written to without being told the severity first", sev, pf.name, ev.W)})
 					} else if *ls != sev {
@@ -744,7 +779,11 @@ func allOptable(e *c03env, ops []wop) bool {
 
 // c03exhaustive: case index = index into the enumeration of all sequences up to the length bound.
 func c03exhaustive(c *Ctx) {
-	e, err := newC03env()
+	cfgDefault := c.To > c.From && (c.From/(c.To-c.From))%2 == 1 // every other process
+	if cfgDefault {
+		c.R.Add("processes_with_the_builtin_default_logger_configured", 1)
+	}
+	e, err := newC03env(cfgDefault)
 	if err != nil {
 		c.R.Violation(-1, "harness", "C03/harness", err.Error(), nil)
 		return
@@ -780,7 +819,8 @@ func c03exhaustive(c *Ctx) {
 var c03savedDefault = slog.Default()
 
 func c03random(c *Ctx) {
-	e, err := newC03env()
+	c.R.Add("processes_with_the_builtin_default_logger_configured", 1)
+	e, err := newC03env(true)
 	if err != nil {
 		c.R.Violation(-1, "harness", "C03/harness", err.Error(), nil)
 		return
